@@ -30,8 +30,16 @@ func EachInstr(fn *ssa.Function, f func(ssa.Instruction)) {
 }
 
 func eachInstr(fn *ssa.Function, f func(ssa.Instruction), seen map[*ssa.Function]bool) {
+	inlined := len(seen) > 1
 	for _, b := range fn.Blocks {
 		for _, ins := range b.Instrs {
+			if inlined {
+				// the returns of an inlined helper are internal control transfers, not exits of the function analysed
+				switch ins.(type) {
+				case *ssa.Return, *ssa.RunDefers:
+					continue
+				}
+			}
 			f(ins)
 			if ci, ok := ins.(ssa.CallInstruction); ok {
 				// visited once per call site (a helper used twice stands for two copies of its body)
@@ -377,7 +385,7 @@ func IfCond(b *ssa.BasicBlock) (*ssa.If, *CondInfo) {
 		break
 	}
 	if bo, ok := c.(*ssa.BinOp); ok {
-		ci := &CondInfo{X: bo.X, Y: bo.Y, Op: bo.Op, Neg: neg}
+		ci := &CondInfo{X: ThroughNew(bo.X), Y: ThroughNew(bo.Y), Op: bo.Op, Neg: neg}
 		// normalise `const OP x` to `x OP' const`
 		if _, xc := ci.X.(*ssa.Const); xc {
 			if _, yc := ci.Y.(*ssa.Const); !yc {
@@ -391,6 +399,18 @@ func IfCond(b *ssa.BasicBlock) (*ssa.If, *CondInfo) {
 					ci.Op = token.LSS
 				case token.GEQ:
 					ci.Op = token.LEQ
+				}
+			}
+		}
+		// two non-constant operands: `a > b` is reported as `b < a`, `a >= b` as `b <= a`, so that the spelling of a
+		// comparison does not matter to the rules
+		if _, xc := ci.X.(*ssa.Const); !xc {
+			if _, yc := ci.Y.(*ssa.Const); !yc {
+				switch ci.Op {
+				case token.GTR:
+					ci.X, ci.Y, ci.Op = ci.Y, ci.X, token.LSS
+				case token.GEQ:
+					ci.X, ci.Y, ci.Op = ci.Y, ci.X, token.LEQ
 				}
 			}
 		}
